@@ -1911,23 +1911,57 @@ SAMPLE_FILES = [
 
 
 def wf_programs(rng, tier):
-    """HOOK for the builder-program generator (DESIGN.md §4.2, built by the builder agent).
+    """Generated WELL-FORMED builder programs (harness/gen_prog.py: typing discipline W1-W8 of DESIGN §5 C01),
+    every builder family, plus TrackedDfg circuits with mixed index / wire arguments.  One spec per top-level
+    document of a program (`which` = index among its `to_json` commands)."""
+    import gen_prog
 
-    Must yield JSON-able specs `{"kind": "program", "prog": <program>, "family": <builder family>}` of
-    WELL-FORMED programs (W1-W8); `_build_program(prog)` below must run the program on the real
-    builders and return the `Hugr`.  Everything else (document, both validators, the property oracle:
-    an `invalid` verdict is a failure with site = family and cls = the violated rule, shrinking by
-    `shrink_program`) is already in place.
-    """
-    return []
+    n_prog, n_circ = {"quick": (220, 60), "thorough": (6000, 1500)}.get(tier, (3000, 600))
+    fams = [None, "dfg", "function", "module", "cfg", "conditional", "tailloop", "tracked"]
+    for i in range(n_prog):
+        fam = fams[i % len(fams)]
+        opts = {"to_json": True, "depth": rng.choice([2, 3, 3, 4])}
+        if fam:
+            opts["family"] = fam
+        if rng.random() < 0.3:
+            opts["bias"] = {rng.choice(["nested", "conditional", "tail_loop", "cfg", "call", "order", "load"]): 5}
+        prog = gen_prog.gen_wf_program(random.Random(rng.randrange(2**31)), rng.randint(3, 30), opts)
+        for w in range(sum(1 for c in prog if c[0] == "to_json")):
+            yield {"kind": "program", "prog": prog, "family": fam or "mixed", "which": w}
+    for i in range(n_circ):
+        prog = gen_prog.gen_tracked_circuit(
+            random.Random(rng.randrange(2**31)), rng.randint(1, 5), rng.randint(1, 12), {"bad": 0.0}
+        )
+        for w in range(sum(1 for c in prog if c[0] == "to_json")):
+            yield {"kind": "program", "prog": prog, "family": "tracked-circuit", "which": w}
 
 
-def _build_program(prog):
-    raise NotImplementedError("connect the builder-program generator (see wf_programs)")
+def _build_program(prog, which=0):
+    """Run the program on the real builders; the HUGR of its `which`-th `to_json` command."""
+    import progs
+
+    r = progs.run_program([c for c in prog])
+    for o in r["outcomes"]:
+        if o[0] == "err":
+            raise type(str(o[1]), (Exception,), {})("raised by a builder call of the program")
+    tj = [c for c in prog if c[0] == "to_json"]
+    return r["env"].builder(tj[which][1]).hugr
 
 
 def shrink_program(spec, pred):
-    """HOOK: shrink a failing program (drop commands / flatten nesting); identity until connected."""
+    """Shrink a failing program with the generator's own shrinker (drops commands, keeps definitions used)."""
+    import gen_prog
+
+    try:
+        tj = [c for c in spec["prog"] if c[0] == "to_json"]
+        keep = tj[spec.get("which", 0)]
+        small = gen_prog.shrink_program(
+            spec["prog"], lambda p: keep in p and pred({**spec, "prog": p, "which": [c for c in p if c[0] == "to_json"].index(keep)}),
+        )
+        if keep in small:
+            return {**spec, "prog": small, "which": [c for c in small if c[0] == "to_json"].index(keep)}
+    except Exception:  # noqa: BLE001
+        pass
     return spec
 
 
@@ -1950,7 +1984,7 @@ def build_hugr(spec):
     if k == "neg_script":
         return NEG_SCRIPTS[spec["name"]][0](random.Random(spec["seed"]))
     if k == "program":
-        return _build_program(spec["prog"])
+        return _build_program(spec["prog"], spec.get("which", 0))
     raise KeyError(k)
 
 
